@@ -704,7 +704,7 @@ impl Value {
                             ctx.add_variable_from_value(&comprehension.accu_var, accu);
                         }
                     }
-                    t => todo!("Support {t:?}"),
+                    t => return Err(t.error_expected_type(ValueType::List)),
                 }
                 Value::resolve(comprehension.result.deref(), &ctx)
             }
